@@ -13,12 +13,36 @@ ASSUME_ORACLE = [
 ]
 
 PROPS = {
+    'C01': {
+        'rule': 'triples of valid elements (angle-axis over [0,4pi] strata, both hemispheres, raw tiny-|v| quaternions; linear parts 0..1e6 independent of the rotation) and points; non-trivial: no identity operand, rotation angle > 1e-3 in X and Y, non-zero linear parts',
+        'assumptions': ASSUME_ORACLE,
+        'stages': [
+            {'src': 'C01.cpp', 'configs': D_GROUPS + ['R1d', 'R7d'] + F_GROUPS + ALL_BUNDLES,
+             'cases': {'quick': 8000, 'thorough': 300000}, 'shards': {'quick': 1, 'thorough': 2}},
+        ],
+    },
     'C02': {
         'rule': 'tangent stratified by rotation magnitude x linear magnitude; non-trivial: theta != 0 and some linear component >= 1e-3; distinct = distinct input bit patterns',
         'assumptions': ASSUME_ORACLE,
         'stages': [
             {'src': 'C02.cpp', 'configs': D_GROUPS + F_GROUPS + BUNDLES,
              'cases': {'quick': 12000, 'thorough': 400000}, 'shards': {'quick': 1, 'thorough': 2}},
+        ],
+    },
+    'C03': {
+        'rule': 'element = manif product of 1..3 generated elements (rotation by angle-axis over [0,4pi] strata, raw tiny-|v| quaternions in both hemispheres), q/-q pairs, tangents with theta < pi-1e-6; non-trivial: w<0, or angle within 1e-3 of pi, or |v|<1e-6, or chain>1',
+        'assumptions': ASSUME_ORACLE,
+        'stages': [
+            {'src': 'C03.cpp', 'configs': D_GROUPS + F_GROUPS + BUNDLES,
+             'cases': {'quick': 10000, 'thorough': 300000}, 'shards': {'quick': 1, 'thorough': 2}},
+        ],
+    },
+    'C06': {
+        'rule': 'tangent (theta up to pi-1e-6, strata of 1.3) x two elements x second tangent; non-trivial: theta != 0 and a linear component >= 1e-3',
+        'assumptions': ASSUME_ORACLE,
+        'stages': [
+            {'src': 'C06.cpp', 'configs': D_GROUPS + ['SE2f', 'SE3f', 'SO3f'] + BUNDLES,
+             'cases': {'quick': 6000, 'thorough': 200000}, 'shards': {'quick': 1, 'thorough': 2}},
         ],
     },
 }
